@@ -1142,9 +1142,18 @@ def f_denominator(c):
             return None
         t, el, vec = di
         pct = c.P[0]['ctype']
-        if pct == t.ct:       # from the divisor (scalar or vector)
+        if pct == t.ct and t.W > 1:
+            # SIMD constructors run vector division loops on a symbolic divisor (beyond the solvers); they are executed
+            # -- with every safety check on -- inside each div / operator obligation, which builds its denominator with them
+            return None
+        if pct == t.ct:       # from the divisor (scalar or width-1 vector)
             req = ['%s != 0' % t.lane(c.a(0), i) for i in range(t.W)]
-            ens = [('value() reports the divisor, lane %d' % i, '%s == %s' % (t.lane('(%s).d' % RV, i), t.lane(c.a(0), i))) for i in range(t.W)]
+            flds = dict(S[fn['owner']])
+            if 'd' in flds:
+                ens = [('value() reports the divisor, lane %d' % i, '%s == %s' % (t.lane('(%s).d' % RV, i), t.lane(c.a(0), i))) for i in range(t.W)]
+            else:
+                st = T(ELEM[el][2], S)
+                ens = [('value() reports the divisor', '%s == %s' % (st.lane('(%s).m.d' % RV, 0), t.lane(c.a(0), 0)))]
             k = Contract('denom_ctor', ['C14'] if not vec else ['C15'], requires=req, ensures=ens, cxx='%s({0})' % ('avel::Denominator<%s>' % t.cxx()), flags=['div'])
             return k
         return None
@@ -1158,7 +1167,14 @@ def f_denominator(c):
             return None
         n, dn = c.a(0), c.a(1)
         dq, dr = ('spec_sdiv', 'spec_srem') if t.signed else ('spec_udiv', 'spec_urem')
-        dl = lambda i: t.lane('(%s).d' % dn, i)
+        flds = dict(S[c.P[1]['ctype']])
+        if 'd' in flds:
+            dl = lambda i: t.lane('(%s).d' % dn, i)
+        elif flds.get('m', '').startswith('Denom_'):      # width-1 vector denominators wrap the scalar denominator
+            st = T(ELEM[el][2], S)
+            dl = lambda i: st.lane('(%s).m.d' % dn, 0)
+        else:
+            return None
         ens = []
         for i in range(t.W):
             g = 'spec_div_defined(%s, %s, %d, %d)' % (t.lane(n, i), dl(i), t.bits, t.signed)
@@ -1168,7 +1184,7 @@ def f_denominator(c):
             else:
                 sp = dq if c.name == 'operator/' else dr
                 ens.append(('%s lane %d' % (c.name, i), '!%s || %s == %s(%s, %s, %d)' % (g, t.lane(RV, i), sp, t.lane(n, i), dl(i), t.bits)))
-        cxx = 'avel::div({0}, {1})' if c.name == 'div' else '({0} %s {1})' % c.name[8:]
+        cxx = 'div({0}, {1})' if c.name == 'div' else '({0} %s {1})' % c.name[8:]
         # scalar denominators: the property excludes n == MIN with d == -1 altogether (no result is specified there)
         req = ['spec_div_defined(%s, %s, %d, %d)' % (t.lane(n, 0), dl(0), t.bits, t.signed)] if t.W == 1 and not vec else []
         k = Contract('denom_' + c.name, ['C14'] if not vec else ['C15'], requires=req, ensures=ens, cxx=cxx, flags=['div'])
@@ -1177,7 +1193,7 @@ def f_denominator(c):
             return None
         k.extra_roots = [ctor]
         k.denom = {'t': t, 'vec': vec, 'ctor': ctor, 'dct': c.P[1]['ctype'], 'nct': t.ct}
-        if t.bits > 8:
+        if t.bits > 8 or t.W > 1:
             k.partial = 'one obligation per divisor d of the lattice {%s} (mod 2^%d)%s; all numerators' % (
                 ', '.join(str(v) for v in denom_lattice(t)), t.bits, ', every lane dividing by d, plus one obligation with a different lattice divisor in every lane' if vec else '')
         # broadcast construction Denominator<vec>(Denominator<T>(d))
@@ -1194,7 +1210,12 @@ def f_denominator(c):
         if not di:
             return None
         t, el, vec = di
-        ens = [('value() lane %d' % i, '%s == %s' % (t.lane(RV, i), t.lane('(*this).d', i))) for i in range(t.W)]
+        flds = dict(S[fn['owner']])
+        if 'd' in flds:
+            ens = [('value() lane %d' % i, '%s == %s' % (t.lane(RV, i), t.lane('(*this).d', i))) for i in range(t.W)]
+        else:
+            st = T(ELEM[el][2], S)
+            ens = [('value()', '%s == %s' % (t.lane(RV, 0), st.lane('(*this).m.d', 0)))]
         return Contract('denom_value', ['C14'] if not vec else ['C15'], ensures=ens, cxx='{this}.value()')
     return None
 
@@ -1230,7 +1251,7 @@ def denom_variants(k, tier):
         c.part = label
         return c
 
-    if t.bits <= 8:
+    if t.bits <= 8 and t.W == 1:
         # all divisors: symbolic d != 0
         c = mk('all d', ['d_in'])
         c.harness['pre'] = ['uint%d_t d_in = nondet_u%d();' % (8, 8), '__CPROVER_assume(d_in != 0);'] + c.harness['pre']
